@@ -1106,6 +1106,49 @@ theorem splitCell_birth (g : Gen σ α) (eps8 : α) (ruleSplitters eventSplitter
   intro d
   exact ⟨rfl, rfl, rfl, rfl, rfl, rfl, rfl, rfl, rfl, rfl, _, rfl, rfl, rfl, rfl⟩
 
+/-! #### A division uses the splitter of the rule or event that caused it -/
+
+/-- the daughters `splitCell` makes with one given splitter. -/
+def daughtersWith (g : Gen σ α) (eps8 : α) (sp : Splitter α) (cs : Cell α) (c : Thread σ α) : Daughters α :=
+  (partitionLineage g sp.vs sp.noise eps8 sp.perfect sp.binomial cs.state cs.vol c.g).1
+
+/-- a division flagged with the index of division rule `i` partitions with rule `i`'s splitter … -/
+theorem splitCell_rule_splitter (g : Gen σ α) (eps8 : α) (ruleSplitters eventSplitters : List (Splitter α)) (cs : Cell α)
+    (c : Thread σ α) (i : Nat) (hd : cs.divided = (i : Int)) (hi : i < ruleSplitters.length) :
+    let d := (splitCell g eps8 ruleSplitters eventSplitters cs c).1
+    let w := daughtersWith g eps8 (ruleSplitters.getD i ⟨.binomial, 0, [], []⟩) cs c
+    d.1.state = w.dState ∧ d.2.state = w.eState ∧ d.1.vol = w.dVol ∧ d.2.vol = w.eVol := by
+  intro d w
+  simp only [d, w, splitCell, daughtersWith, hd, Int.toNat_natCast, hi, if_true]
+  simp
+
+/-- … and one flagged `number of division rules + e` partitions with the splitter of division event `e` (not with a rule's). -/
+theorem splitCell_event_splitter (g : Gen σ α) (eps8 : α) (ruleSplitters eventSplitters : List (Splitter α)) (cs : Cell α)
+    (c : Thread σ α) (e : Nat) (hd : cs.divided = ((ruleSplitters.length + e : Nat) : Int)) :
+    let d := (splitCell g eps8 ruleSplitters eventSplitters cs c).1
+    let w := daughtersWith g eps8 (eventSplitters.getD e ⟨.binomial, 0, [], []⟩) cs c
+    d.1.state = w.dState ∧ d.2.state = w.eState ∧ d.1.vol = w.dVol ∧ d.2.vol = w.eVol := by
+  intro d w
+  have hn : ¬ (ruleSplitters.length + e < ruleSplitters.length) := by omega
+  simp only [d, w, splitCell, daughtersWith, hd, Int.toNat_natCast, hn, if_false, Nat.add_sub_cancel_left]
+  simp
+
+/-- the single-cell loop flags a division caused by division event `e` (propensity index `reactions + volume events + e`) as
+`number of division rules + e`: together with `splitCell_event_splitter`, the event's own splitter is used. -/
+theorem cellEventStep_division_index (g : Gen σ α) (m : CellModel α) (a : List α) (Lambda : α) (b : CellLoop σ α)
+    (c : Nat) (hc : (sampleDiscrete g a Lambda b.g).1 = (c : Int))
+    (hlo : m.props.length + m.volEvents.length ≤ c) (hhi : c < m.props.length + m.volEvents.length + m.nDivEvents) :
+    (cellEventStep g m a Lambda b).divided = ((m.divRules.length + (c - m.props.length - m.volEvents.length) : Nat) : Int)
+      ∧ (cellEventStep g m a Lambda b).stop = true := by
+  unfold cellEventStep
+  have h1 : ¬ ((c : Int) < 0) := by omega
+  have h2 : ¬ (c < m.props.length) := by omega
+  have h3 : ¬ (c < m.props.length + m.volEvents.length) := by omega
+  simp only [hc, h1, if_false, Int.toNat_natCast, h2, h3, hhi, if_true]
+  constructor
+  · congr 1; omega
+  · trivial
+
 end Concrete
 
 /-! ### The pinned tree's final push, and non-vacuity -/
